@@ -1560,6 +1560,7 @@ namespace awkward {
                                                 const RegularArray* raw,
                                                 int64_t length,
                                                 const std::string& classname) {
+    bool wasempty = (length == 0);
     if (length == 0) {
       length = 1;  // if this is in a tuple-slice and really should be 0, it will be trimmed later
     }
@@ -1575,6 +1576,12 @@ namespace awkward {
       length,
       raw->size());
     util::handle_error(err, classname, nullptr);
+    if (wasempty) {
+      // the placeholder row has no content to point at
+      for (int64_t i = 0;  i < outindex.length();  i++) {
+        outindex.setitem_at_nowrap(i, -1);
+      }
+    }
 
     IndexedOptionArray64 out(Identities::none(),
                              util::Parameters(),
